@@ -184,6 +184,40 @@ def anchor_quats(eps):
         d = axes[int(th) % len(axes)]
         s, w = math.sin(th / 2), math.cos(th / 2)
         out.append(([d[0] * s, d[1] * s, d[2] * s, w], f"ang{th:.1f}"))
+    out += tie_quats(eps)
+    return out
+
+
+def tie_quats(eps):
+    """class 20 — EXACT COINCIDENCES of two data-dependent quantities. For the quaternion logarithm the two quantities are ‖v‖
+    and |w|: exact quarter turns, built (a) as documented, (a·s, ±s) with s = sqrt(1/2), axis-aligned and generic axes, and
+    (b) with w := ±‖v‖ as the dtype computes it, so that the tie holds bit for bit whatever the axis; also exact multiples of
+    π/6 and π/4 (both hemispheres), equal components, and the small-angle band 0.02..0.3 where a series/closed-form switch
+    moved too far would show at the 10²·eps level (class 24)."""
+    D = torch.float32 if eps == common.EPS["float32"] else torch.float64
+    out = []
+    s = math.sqrt(0.5)
+    axes = [[1.0, 0.0, 0.0], [0.0, 1.0, 0.0], [0.0, 0.0, -1.0], [0.6, 0.0, 0.8], [0.36, 0.48, -0.8], [-2 / 7, 3 / 7, 6 / 7],
+            [1 / math.sqrt(3)] * 3, [s, -s, 0.0], [2 / 3, -1 / 3, 2 / 3]]
+    for i, a in enumerate(axes):
+        for sgn in (1.0, -1.0):
+            out.append(([a[0] * s, a[1] * s, a[2] * s, sgn * s], f"quarter{'+' if sgn > 0 else '-'}"))
+            v = torch.tensor([a[0] * s, a[1] * s, a[2] * s], dtype=torch.float64).to(D)
+            wn = float(torch.norm(v, 2, dim=-1).double())
+            out.append((v.double().tolist() + [sgn * wn], f"tie|v|=|w|{'+' if sgn > 0 else '-'}"))
+    for k in range(1, 12):
+        for base, nm in ((math.pi / 6, "pi/6"), (math.pi / 4, "pi/4")):
+            th = k * base
+            a = axes[k % len(axes)]
+            out.append(([a[0] * math.sin(th / 2), a[1] * math.sin(th / 2), a[2] * math.sin(th / 2), math.cos(th / 2)], f"{k}{nm}"))
+    for c in (0.5, 1e-3, 1e-9):
+        w = math.sqrt(max(0.0, 1 - 3 * c * c))
+        out.append(([c, c, c, w], "equal-components"))
+        out.append(([c, -c, c, -w], "equal-components"))
+    for th in (0.02, 0.03, 0.05, 0.07, 0.1, 0.2):
+        for sgn in (1.0, -1.0):
+            a = axes[3]
+            out.append(([a[0] * math.sin(th / 2), a[1] * math.sin(th / 2), a[2] * math.sin(th / 2), sgn * math.cos(th / 2)], f"small{th}"))
     return out
 
 
@@ -767,8 +801,30 @@ def same_err(a, b, width, dtype):
     return (float(r.max()) if r.numel() else 0.0), k
 
 
-def block_same(name, kind, a, b, dtype):
-    """per-block version: rotation / translation / scale blocks each relative to their own magnitude"""
+def tin_of(in_kind, name, rows):
+    """natural scale of the translation block of a result: the input translation magnitude times the norm of the coupling matrix
+    it is multiplied by (W or W⁻¹: at most max(s, 1/s) = e^|σ|). Two evaluations of the same item by different kernels (batched
+    vs single matmul) legitimately differ by an ulp of THAT scale when W·τ cancels (θ near 2π), not by an ulp of the result."""
+    rows = rows.double().reshape(-1, rows.shape[-1])
+    if in_kind == "group":
+        if U.TSL[name] is None:
+            return None
+        t = rows[:, U.TSL[name]].abs().amax(-1, keepdim=True)
+        if U.SIDX[name] is not None:
+            sc = rows[:, U.SIDX[name]:U.SIDX[name] + 1].abs().clamp(min=1e-300)
+            t = t * torch.maximum(sc, 1.0 / sc)
+        return t
+    if U.TAUSL[name] is None:
+        return None
+    t = rows[:, U.TAUSL[name]].abs().amax(-1, keepdim=True)
+    if U.SIGIDX[name] is not None:
+        t = t * rows[:, U.SIGIDX[name]:U.SIGIDX[name] + 1].abs().clamp(max=50.0).exp()
+    return t
+
+
+def block_same(name, kind, a, b, dtype, tin=None):
+    """per-block version: rotation / translation / scale blocks each relative to their own magnitude (`tin`: per-row natural
+    scale of the translation block, see tin_of)"""
     worst, wk = 0.0, 0
     if kind == "alg":
         sls = [U.PHISL[name]] + ([U.TAUSL[name]] if U.TAUSL[name] is not None else []) + \
@@ -778,8 +834,15 @@ def block_same(name, kind, a, b, dtype):
               ([slice(U.SIDX[name], U.SIDX[name] + 1)] if U.SIDX[name] is not None else [])
     if a.shape != b.shape:
         return float("inf"), 0
+    tsl = U.TAUSL[name] if kind == "alg" else U.TSL[name]
     for sl in sls:
-        r, k = same_err(a[:, sl], b[:, sl], 0, dtype)
+        if tin is not None and sl == tsl and tin.shape[0] == a.shape[0]:
+            aa, bb = torch.nan_to_num(a[:, sl], nan=1e33), torch.nan_to_num(b[:, sl], nan=1e33)
+            sc = torch.maximum(bb.abs().amax(-1, keepdim=True), tin).clamp(min=1e-300)
+            rr = ((aa - bb).abs() / (K_SAME * common.EPS[dtype] * sc)).amax(-1)
+            r, k = (float(rr.max()), int(rr.argmax())) if rr.numel() else (0.0, 0)
+        else:
+            r, k = same_err(a[:, sl], b[:, sl], 0, dtype)
         if r > worst:
             worst, wk = r, k
     return worst, wk
@@ -824,7 +887,7 @@ def check_views_and_batch(ctx: Ctx, case):
         except Exception as ex:
             ctx.fail(case, f"raises {name}: {label} on a single item raised {type(ex).__name__}: {str(ex)[:120]}")
             continue
-        r, k = block_same(name, okind, ref, single, dtype)
+        r, k = block_same(name, okind, ref, single, dtype, tin_of(kind, name, rows))
         ctx.count(f"batch-vs-item.{label}.{name}")
         ctx.note_case(("batch-vs-item", label, name, dtype, n), True)
         if not r <= 1.0:
@@ -853,7 +916,7 @@ def check_views_and_batch(ctx: Ctx, case):
             ctx.note_case(("view", vname, label, name, dtype), True)
             if not torch.equal(torch.nan_to_num(backing, nan=1e33), torch.nan_to_num(before, nan=1e33)):
                 ctx.fail(case | {"view": vname}, f"view {name}: {label} wrote into the caller's buffer ({vname} view, {dtype})")
-            r, k = block_same(name, okind, got, want, dtype)
+            r, k = block_same(name, okind, got, want, dtype, tin_of(kind, name, plain))
             if not r <= 1.0:
                 ctx.fail(case | {"view": vname}, f"view {name}: {label} on a {vname} view differs from the contiguous copy by {r:.3g}×64 ulp "
                          f"(row {k}: {got[k].tolist()} vs {want[k].tolist()}, {dtype})")
@@ -865,7 +928,7 @@ def check_views_and_batch(ctx: Ctx, case):
             r2 = fn(B).tensor().double().reshape(-1, ow)
             if not torch.equal(shared, rows):
                 ctx.fail(case, f"view {name}: {label} modified the caller's tensor ({dtype})")
-            rr, k = block_same(name, okind, r2, r1, dtype)
+            rr, k = block_same(name, okind, r2, r1, dtype, tin_of(kind, name, rows))
             if not rr <= 1.0:
                 ctx.fail(item_case(k), f"view {name}: {label} through a second LieTensor sharing the storage differs ({dtype})")
         except Exception as ex:
@@ -1050,6 +1113,7 @@ def check_api_forms(ctx: Ctx, case, forms=True):
             "copy.deepcopy": lambda: meth(copy.deepcopy(mk())),
             "copy.copy": lambda: meth(copy.copy(mk())),
             "pickle round trip": lambda: meth(pickle.loads(pickle.dumps(mk()))),
+            "user subclass of LieTensor": lambda: meth(_UserLT(P)(rows.clone(), ltype=lt_)),
         }
         for fname, f in (forms_d.items() if forms else ()):
             ctx.count(f"form.{fname}")
@@ -1065,7 +1129,7 @@ def check_api_forms(ctx: Ctx, case, forms=True):
             okind = "alg" if (label in ("Log", "Log(Exp)")) else "grp"
             ow = (U.ADIM if okind == "alg" else U.GDIM)[name]
             same = got.shape == ref.shape and got.dtype == ref.dtype and \
-                block_same(name, okind, got.double().reshape(-1, ow), ref.double().reshape(-1, ow), dtype)[0] <= 1.0
+                block_same(name, okind, got.double().reshape(-1, ow), ref.double().reshape(-1, ow), dtype, tin_of(kind, name, rows))[0] <= 1.0
             if not same:
                 d = float((got.double() - ref.double()).abs().max()) if got.shape == ref.shape else float("nan")
                 ctx.fail(case | {"form": fname}, f"form {name}: {label} via {fname} returns other values than the plain method call "
@@ -1113,7 +1177,19 @@ def check_api_forms(ctx: Ctx, case, forms=True):
             ctx.fail(case, f"raises {name}: memory-ownership probe of {label} raised {type(ex).__name__}: {str(ex)[:120]}")
 
 
-EXOTIC_FORMS = {"pp.Parameter", "torch.inference_mode()", "copy.copy", "pickle round trip"}
+EXOTIC_FORMS = {"pp.Parameter", "torch.inference_mode()", "copy.copy", "pickle round trip", "user subclass of LieTensor"}
+_USER_LT = {}
+
+
+def _UserLT(P):
+    """class 21: a user class DERIVED from the shipped LieTensor (adds a method, overrides nothing the property is about) must
+    be dispatched like a LieTensor"""
+    if "cls" not in _USER_LT:
+        class MyPose(P.LieTensor):
+            def describe(self):
+                return f"MyPose{tuple(self.shape)}"
+        _USER_LT["cls"] = MyPose
+    return _USER_LT["cls"]
 
 
 def _with(cm, f):
@@ -1172,7 +1248,7 @@ def run_shape_sweep(ctx: Ctx):
                         if tuple(gt.shape) != shape + (ow,) or gt.dtype != D:
                             ctx.fail(case, f"size {name}: {label} on batch shape {shape} returned shape {tuple(gt.shape)} dtype {gt.dtype} ({dtype})")
                             continue
-                        r, k = block_same(name, okind, gt.double().reshape(-1, ow), alone.double().reshape(-1, ow), dtype)
+                        r, k = block_same(name, okind, gt.double().reshape(-1, ow), alone.double().reshape(-1, ow), dtype, tin_of(kind, name, T))
                         if not r <= 1.0:
                             ctx.fail(small({**case, "shape": [n]}, k, batch_shape=list(shape), which=label),
                                      f"size {name}: {label} of item {k} in a batch of shape {shape} differs from {label} of the item alone by "
@@ -1279,6 +1355,177 @@ def interleave_probe(ctx: Ctx, spec):
                 return
 
 
+# ----------------------------------------------------------------------------- large batches (class 19), mode orders (class 23)
+
+def run_large_batches(ctx: Ctx):
+    """class 19 — internal chunk / block boundaries: batches of 2^k, 2^k ± 1 items (one above 2^14 and one above 2^16 per type
+    and entry point), in several shapes with that element count. Oracles that do not need the model on 10^5 items:
+    split-consistency f(x) = cat(f(x[:a]), f(x[a:])) for several cut points, f(x)[i] = f(x[i:i+1]) for the first / last / random
+    items (64 ulp per block: the same code on the same item), the property's own law Exp(Log X) ≅ X on every item, and the
+    model on a sample that includes the LAST item."""
+    P = U.pp()
+    rng = ctx.rng
+    pend = []
+    # one torch thread here: OpenMP parallel regions over 10^5-row tensors stall for seconds per barrier when the machine is
+    # oversubscribed (measured: 5 s idle → 280 s at load 70 with 4 threads); single-threaded the cost is ~8 s whatever the load
+    nthreads = torch.get_num_threads()
+    torch.set_num_threads(1)
+    try:
+        _run_large_batches(ctx, P, rng, pend)
+    finally:
+        torch.set_num_threads(nthreads)
+    flush(ctx, pend)
+
+
+def _run_large_batches(ctx, P, rng, pend):
+    sizes = [(2 ** 14 + 1, [(2 ** 14 + 1,), (1, 2 ** 14 + 1)]), (2 ** 16 + 1, [(2 ** 16 + 1,)]), (2 ** 10 - 1, [(3, 341)])]
+    if not ctx.quick:
+        sizes += [(2 ** 17 + 1, [(2 ** 17 + 1,)]), (2 ** 15, [(2 ** 15,), (128, 256)]), (2 ** 13 - 1, [(2 ** 13 - 1,)]),
+                  (2 ** 12, [(64, 64), (2 ** 12,)]), (2 ** 10 - 1, [(2 ** 10 - 1,)])]
+    for dtype in ("float64", "float32"):
+        eps = common.EPS[dtype]
+        D = U.dt(dtype)
+        anchors = anchor_quats(eps)
+        for name in U.GROUPS:
+            for kind in ("group", "alg"):
+                grp = kind == "group"
+                width = U.GDIM[name] if grp else U.ADIM[name]
+                lt_ = getattr(P, (name if grp else U.ALG[name]) + "_type")
+                base = []
+                for kk in range(97):          # 97 distinct items (prime: the tiling is not aligned with any power of two)
+                    base.append(gen_group_item(rng, name, eps, anchors, kk)[0] if grp else gen_alg_item(rng, name, eps)[0])
+                B = torch.tensor(base, dtype=torch.float64).to(D)
+                for n, shapes in (sizes if dtype == "float64" else sizes[:1]):
+                    flat = B.repeat((n + 96) // 97, 1)[:n].clone()
+                    flat[-1] = B[(n * 7) % 97]            # the last item is not a tiling artefact
+                    for shape in shapes:
+                        T = flat.reshape(shape + (width,))
+                        case = {"kind": kind, "type": name, "dtype": dtype, "shape": list(shape), "id": f"large-{n}", "large": True,
+                                "n": n, "tags": []}
+                        for label, (fn, okind) in ops_of(kind, name).items():
+                            if n > 2 ** 16 and label in ("Exp(Log)", "Log(Exp)"):
+                                continue          # compositions are exercised at 2^14+1; the entry points themselves above 2^16
+                            ow = (U.ADIM if okind == "alg" else U.GDIM)[name]
+                            ctx.count(f"large.{n}")
+                            ctx.note_case(("large", n, shape, label, name, kind, dtype), True)
+                            try:
+                                full = fn(P.LieTensor(T.clone(), ltype=lt_)).tensor()
+                                if tuple(full.shape) != shape + (ow,):
+                                    ctx.fail(case, f"large {name}: {label} on {n} items (shape {shape}) returned shape {tuple(full.shape)} ({dtype})")
+                                    continue
+                                fullf = full.double().reshape(-1, ow)
+                                bad = None
+                                for a in ((2 ** 14, n - 1) if n > 2 ** 16 else (n // 2, 2 ** 14 if n > 2 ** 14 else n // 3, n - 1)):
+                                    parts = torch.cat([fn(P.LieTensor(flat[:a].clone(), ltype=lt_)).tensor(),
+                                                       fn(P.LieTensor(flat[a:].clone(), ltype=lt_)).tensor()]).double().reshape(-1, ow)
+                                    r, k = block_same(name, okind, fullf, parts, dtype, tin_of(kind, name, flat))
+                                    if not r <= 1.0:
+                                        bad = (f"cut at {a}", k, parts[k].tolist())
+                                        break
+                                if bad is None:
+                                    for i in (0, n - 1, n - 2, rng.randrange(n), rng.randrange(n)):
+                                        one = fn(P.LieTensor(flat[i:i + 1].clone(), ltype=lt_)).tensor().double().reshape(-1, ow)
+                                        r, _ = block_same(name, okind, fullf[i:i + 1], one, dtype, tin_of(kind, name, flat[i:i + 1]))
+                                        if not r <= 1.0:
+                                            bad = (f"item {i} alone", i, one[0].tolist())
+                                            break
+                            except Exception as ex:
+                                ctx.fail(case, f"large {name}: {label} on {n} items (shape {shape}) raised {type(ex).__name__}: {str(ex)[:120]} ({dtype})")
+                                continue
+                            if bad is not None:
+                                how, k, other = bad
+                                ctx.fail(small({**case, ("X" if grp else "x"): flat.double().tolist(), "shape": [n]}, k, batch_items=n, which=label),
+                                         f"large {name}: {label} of item {k} inside a batch of {n} items (shape {shape}) differs from the same item "
+                                         f"evaluated in a split batch ({how}): {fullf[k].tolist()} vs {other} ({dtype})")
+                # the model and the law oracles on a sample that includes the last items of the largest batch
+                n = sizes[1][0]
+                idx = [0, 1, n - 2, n - 1] + [rng.randrange(n) for _ in range(4)]
+                flat = B.repeat((n + 96) // 97, 1)[:n].clone()
+                flat[-1] = B[(n * 7) % 97]
+                # evaluate the whole big batch once, then hand the sampled rows (with the batched results) to the item streams
+                try:
+                    sample_case = {"kind": kind, "type": name, "dtype": dtype, "shape": [len(idx)], ("X" if grp else "x"): flat[idx].double().tolist(),
+                                   "tags": ["large-sample"] * len(idx), "id": f"large-sample-{n}"}
+                    (eval_group_case if grp else eval_alg_case)(ctx, sample_case, pend)
+                    big = P.LieTensor(flat.clone(), ltype=lt_)
+                    if grp:
+                        L = big.Log().tensor().double()
+                        ref = P.LieTensor(flat[idx].clone(), ltype=lt_).Log().tensor().double()
+                        what = "Log"
+                    else:
+                        L = big.Exp().tensor().double()
+                        ref = P.LieTensor(flat[idx].clone(), ltype=lt_).Exp().tensor().double()
+                        what = "Exp"
+                    r, k = block_same(name, "alg" if grp else "grp", L[idx], ref, dtype, tin_of(kind, name, flat[idx]))
+                    if not r <= 1.0:
+                        ctx.fail(small(sample_case, k, batch_items=n), f"large {name}: {what} of item {idx[k]} of {n} differs between the big batch and a batch of "
+                                 f"{len(idx)}: {L[idx][k].tolist()} vs {ref[k].tolist()} ({dtype})")
+                except Exception as ex:
+                    ctx.fail({"kind": kind, "type": name, "dtype": dtype, "n": n}, f"large {name}: sample evaluation raised {type(ex).__name__}: {str(ex)[:120]}")
+
+
+def mode_order_probe(ctx: Ctx):
+    """class 23 — a module-level cache filled during a call in one grad mode and reused by a later call of the same key
+    (shape, dtype, ltype) in another mode. For keys that are FRESH in this process (batch shapes used nowhere else) the same op is
+    called on DIFFERENT data in the orders inference_mode→autograd(+backward), no_grad→autograd(+backward), autograd→inference_mode,
+    no_grad→inference_mode→autograd; every result must equal the item-wise evaluation of its own data."""
+    P = U.pp()
+    rng = ctx.rng
+    fresh_shapes = iter([(5,), (7,), (11,), (13,), (2, 5), (2, 7), (3, 5), (5, 2), (7, 2), (3, 7), (17,), (19,), (2, 11), (23,), (3, 11), (5, 5)] * 8)
+    orders = [("inference", "grad"), ("no_grad", "grad"), ("grad", "inference"), ("no_grad", "inference", "grad")]
+
+    def call(mode, fn, T, lt_):
+        if mode == "inference":
+            with torch.inference_mode():
+                return fn(P.LieTensor(T.clone(), ltype=lt_)).tensor().clone()
+        if mode == "no_grad":
+            with torch.no_grad():
+                return fn(P.LieTensor(T.clone(), ltype=lt_)).tensor().clone()
+        X = P.LieTensor(T.clone().requires_grad_(True), ltype=lt_)
+        Y = fn(X)
+        Y.tensor().sum().backward()           # the autograd call really runs its backward
+        return Y.tensor().detach().clone()
+    for dtype in ("float64", "float32"):
+        eps = common.EPS[dtype]
+        D = U.dt(dtype)
+        anchors = anchor_quats(eps)
+        for name in U.GROUPS:
+            for kind in ("group", "alg"):
+                grp = kind == "group"
+                width = U.GDIM[name] if grp else U.ADIM[name]
+                lt_ = getattr(P, (name if grp else U.ALG[name]) + "_type")
+                for label, (fn, okind) in ops_of(kind, name).items():
+                    ow = (U.ADIM if okind == "alg" else U.GDIM)[name]
+                    for order in (orders if dtype == "float64" else orders[:1]):
+                        shape = next(fresh_shapes)
+                        n = int(math.prod(shape))
+                        for step, mode in enumerate(order):
+                            rows = [(gen_group_item(rng, name, eps, anchors, kk)[0] if grp else gen_alg_item(rng, name, eps)[0]) for kk in range(n)]
+                            T = torch.tensor(rows, dtype=torch.float64).to(D).reshape(shape + (width,))
+                            case = {"kind": kind, "type": name, "dtype": dtype, "shape": list(shape), ("X" if grp else "x"): T.double().reshape(-1, width).tolist(),
+                                    "tags": [], "id": f"mode-order {'→'.join(order)} step {step}", "modes": list(order)}
+                            ctx.count(f"mode-order.{'>'.join(order)}")
+                            ctx.note_case(("mode-order", order, step, label, name, kind, dtype), True)
+                            try:
+                                got = call(mode, fn, T, lt_).double().reshape(-1, ow)
+                                pick = sorted(set([0, n - 1] + [rng.randrange(n) for _ in range(3)]))
+                                got = got[pick]
+                                with torch.no_grad():
+                                    alone = torch.stack([fn(P.LieTensor(T.reshape(-1, width)[i].clone(), ltype=lt_)).tensor() for i in pick]).double().reshape(-1, ow)
+                            except Exception as ex:
+                                if mode == "inference":
+                                    ctx.count(f"mode-observation.inference raises {type(ex).__name__}")
+                                    continue
+                                ctx.fail(case, f"mode {name}: {label} in mode '{mode}' after {list(order[:step])} on a fresh key {shape} raised "
+                                         f"{type(ex).__name__}: {str(ex)[:120]} ({dtype})")
+                                continue
+                            r, k = block_same(name, okind, got, alone, dtype, tin_of(kind, name, T.reshape(-1, width)[pick]))
+                            if not r <= 1.0:
+                                ctx.fail(small({**case, "shape": [n]}, pick[k], which=label, mode=mode, after=list(order[:step])),
+                                         f"mode {name}: {label} in mode '{mode}' after calls in modes {list(order[:step])} with the same (shape, dtype) key "
+                                         f"{shape} returns {got[k].tolist()} for an item whose value is {alone[k].tolist()} ({dtype}) — state shared between grad modes")
+
+
 TR_ANCHORS = [0.0, 1.0, 1e-3, 37.0, 1e3, 1e-20, 1e6, 1e-30, 1e12]
 
 
@@ -1325,7 +1572,8 @@ def run_algebra_sweep(ctx: Ctx):
     axes = [[1.0, 0.0, 0.0], [0.0, 0.0, -1.0], [0.6, 0.0, 0.8], [0.36, 0.48, -0.8], [-2 / 7, 3 / 7, 6 / 7]]
     for dtype in ("float64", "float32"):
         eps = common.EPS[dtype]
-        lad = common.ladder(eps) + common.ladder_big() + [math.pi * (1 - 8 * eps), math.pi * (1 - 64 * eps), math.pi - 1e-4] + thr_nbrs(eps)
+        lad = common.ladder(eps) + common.ladder_big() + [math.pi * (1 - 8 * eps), math.pi * (1 - 64 * eps), math.pi - 1e-4] + thr_nbrs(eps) \
+            + [k * math.pi / 6 for k in range(1, 12)] + [k * math.pi / 4 for k in (1, 3, 5, 7)] + [0.02, 0.03, 0.05, 0.07, 0.2, 0.3]
         sig = anchor_sigmas(eps)
         for name in U.GROUPS:
             rows, tags = [], []
@@ -1339,6 +1587,11 @@ def run_algebra_sweep(ctx: Ctx):
                     out.append(sig[(k * 3 + 1) % len(sig)])
                 rows.append(out)
                 tags.append(f"th{common.sig_mag(th)}")
+            if name in ("RxSO3", "Sim3"):       # class 20: |σ| == θ bit for bit (axis-aligned so that θ is exact), both signs
+                for th in (0.5, 1e-3, 2.0, float(U.to_dtype_exact([[eps * 3]], dtype)[1][0][0])):
+                    for sgn in (1.0, -1.0):
+                        rows.append(([1.0, -2.0, 0.5] if name == "Sim3" else []) + [0.0, th, 0.0, sgn * th])
+                        tags.append("tie|sigma|=theta")
             _, x64 = U.to_dtype_exact(rows, dtype)
             case = {"kind": "alg", "type": name, "dtype": dtype, "shape": [len(rows)], "x": x64.tolist(), "tags": tags, "id": f"ladder-{name}-{dtype}"}
             eval_alg_case(ctx, case, pend)
@@ -1362,6 +1615,8 @@ def run(ctx: Ctx):
     run_algebra_sweep(ctx)
     run_shape_sweep(ctx)
     run_dispatch(ctx)
+    mode_order_probe(ctx)
+    run_large_batches(ctx)
     interleave_probe(ctx, spec)
     error_atomic_probe(ctx, spec)
     run_cases(ctx, ctx.pick(250, 9000), ctx.pick(170, 6000))
